@@ -2,8 +2,11 @@
    nat stay the extracted inductive types; no Extract Constant). *)
 From Coq Require Import Extraction ExtrOcamlBasic.
 From Coq Require Import ZArith QArith List.
-From PV Require Import Base.QUtil Gen.GenShape Model.Shape.
+From Coq Require Import Qcanon.
+From PV Require Import Base.QUtil Base.Round Gen.GenShape Model.Shape Model.EventLib Model.Seq Model.Dedup.
 Extraction Language OCaml.
 Extraction "../ocaml/model.ml"
   Qred Qplus Qmult Qminus Qdiv Qle_bool Qeq_bool
-  rnd_he compress decompress quantise pack unpack_go cumsumQ.
+  rnd_he compress decompress quantise pack unpack_go cumsumQ
+  Q2Qc round_spec round_row round_all core_init run step decode seq_step seq_run seq_dedup
+  rnd_shape_key rnd_grad_key rnd_rf_key rnd_adc_key.
